@@ -516,6 +516,7 @@ class Stream:
         self.digests = set()
         self.samples = []
         self.prefix = viol_prefix
+        self.fingerprint = gen.fingerprint
 
     def v(self, key, msg, w):
         if sum(1 for x in self.viol if x["key"] == key) < 3:
@@ -553,14 +554,14 @@ class Stream:
         c["attempts"] += 1
         c["by_class"][cls] = c["by_class"].get(cls, 0) + 1
         self.digests.add(digest(rblk.enc(), now))
-        before = gen.fingerprint(cs)
+        before = self.fingerprint(cs)
         exc = None
         new = None
         try:
             new = cs.add_block(real, now)
         except Exception as e:     # any exception is a rejection
             exc = e
-        after = gen.fingerprint(cs)
+        after = self.fingerprint(cs)
         c["state_fingerprints_compared"] += 1
         w = None
         if after != before:
